@@ -207,7 +207,9 @@ Definition compile_step (sync : bool) (s : step) : list mop :=
   | SMv fids lvl => [MMove fids lvl]
   | SGc b f es border hord =>
       request_mops sync es border hord ++
-      (match es with [] => [MVlogDel b f; MVlogRm b f] | _ => [] end)
+      (* nothing written back: rewrite syncs the WAL (repair 9388215: every record superseding an
+         entry of the file is durable before the file goes), logs the deletion and unlinks the file *)
+      (match es with [] => [MSync; MVlogDel b f; MVlogRm b f] | _ => [] end)
   | SCl => [MFlushBuf]
   end.
 
